@@ -108,3 +108,15 @@ register('C11', 'translation_validation',
          "reals for floats; order <= 4 (quick) / 9 (thorough); <= 3 nodes, <= 4 edges; the trajectory clause follows from "
          "vector-field equality plus C03's kernel result; Connectivity(delays, spread) under C16",
          "SMT translation validation with solver-discovered chain structure (symx + z3)", "7/C11")
+register('C10', 'translation_validation',
+         "Vector-field level: the emitted function is called with a SYMBOLIC history - hist(tau) returns one "
+         "uninterpreted function of time per state component - and z3 proves every derivative equal to the reference that "
+         "reads component pos(x) of hist at (time - tau), time = t for adaptive solvers and t*dt for fixed steps; function "
+         "congruence forces both the time argument and the component index to be right, for past(x,tau), x(t-tau), several "
+         "delays per variable, several delayed variables, and delayed edges under an adaptive solver (mixed with ring "
+         "buffers under a fixed step). Run level: the real _solve_euler/_solve_heun with the real DDEHistory are executed "
+         "symbolically with an uninterpreted delayed vector field and proved equal to the method-of-steps iterates with "
+         "constant pre-history.",
+         "reals for floats; convergence of dopri5 / solve_ivp to the DDE solution is NOT claimed (third-party adaptive "
+         "integrators); DDEHistory's interpolation is C19; kernel bound: steps <= 6/10, delay 1..3 steps (multiples of dt)",
+         "SMT translation validation with uninterpreted history functions (symx + z3)", "7/C10")
